@@ -11,7 +11,9 @@ convergence up to block equivalence for ACLs without remark lines (`ios_plan_blo
 exact convergence without suppressed moves (`ios_plan_converges_no_suppression_partial`),
 the refutation for remark lines (`ios_remark_suppression_counterexample`, finding F-C02r) and the
 regression witness of the repaired defect F-C02 (`ios_split_block_move_not_suppressed`).
-Not modelled in Lean: interface bindings, VRF alignment, crypto maps (configuration-level oracle only).
+Interface bindings, VRF alignment and routes are modelled at engine level in `NA.Props.F2` (a module of the
+C02 check: `ios_F2_converges_partial`, `ios_routes_converge`, `ios_routes_covered_every_step`, …); crypto map
+filter ACLs: configuration-level oracle (harness/asavpn, IOS mode) only.
 -/
 namespace NA.C02
 open NA.Acl.IosAclProps
@@ -19,7 +21,7 @@ def obligations : List Lean.Name := [
   ``NA.Acl.IosAclProps.ios_numbers_strictly_increasing, ``NA.Acl.IosAclProps.ios_runs_numbering_consistent, ``NA.Acl.IosAclProps.ios_insert_by_number,
   ``NA.Acl.IosAclProps.ios_delete_by_number, ``NA.Acl.IosAclProps.ios_reseq_is_numbered, ``NA.Acl.IosAclProps.block_swap_same_semantics, ``NA.Acl.IosAclProps.blockEq_same_semantics,
   ``NA.Acl.IosAclProps.blockEquiv_same_semantics, ``NA.Acl.IosAclProps.ios_plan_final_state, ``NA.Acl.IosAclProps.ios_plan_converges_no_suppression_partial,
-  ``NA.Acl.IosAclProps.ios_plan_block_equiv_partial, ``NA.Acl.IosAclProps.ios_plan_block_equiv_of_supprOK,
+  ``NA.Acl.IosAclProps.ios_plan_block_equiv_partial,
   ``NA.Acl.IosAclProps.ios_remark_suppression_counterexample, ``NA.Acl.IosAclProps.ios_split_block_move_not_suppressed,
-  ``NA.Acl.IosAclProps.ios_log_change_lost_counterexample, ``NA.Route.routes_covered]
+  ``NA.Acl.IosAclProps.ios_log_change_lost_counterexample]
 end NA.C02
